@@ -431,3 +431,132 @@ theorem kernel_square {n : Nat} (hn : 0 < n) {slots : List Int} {rels : List Rel
   exact Int.natCast_modEq_iff.mp hfin
 
 end Ymq.Relations
+
+namespace Ymq.Relations
+
+/-! ### `final_step` returns proper divisors only, whatever the kernel vectors are -/
+
+theorem insertNat_mem {x d : Nat} : ∀ {l : List Nat}, d ∈ insertNat x l → d = x ∨ d ∈ l := by
+  intro l
+  induction l with
+  | nil => intro h; simp [insertNat] at h; exact Or.inl h
+  | cons y t ih =>
+    intro h
+    unfold insertNat at h
+    split at h
+    · rcases List.mem_cons.mp h with h | h
+      · exact Or.inl h
+      · exact Or.inr h
+    · split at h
+      · exact Or.inr h
+      · rcases List.mem_cons.mp h with h | h
+        · exact Or.inr (by rw [h]; exact List.mem_cons_self)
+        · rcases ih h with h | h
+          · exact Or.inl h
+          · exact Or.inr (List.mem_cons_of_mem _ h)
+
+theorem sortDedup_mem {d : Nat} {l : List Nat} (h : d ∈ sortDedup l) : d ∈ l := by
+  unfold sortDedup at h
+  have : ∀ (l acc : List Nat), d ∈ l.foldl (fun acc x => insertNat x acc) acc → d ∈ acc ∨ d ∈ l := by
+    intro l
+    induction l with
+    | nil => intro acc h; exact Or.inl h
+    | cons x t ih =>
+      intro acc h
+      simp only [List.foldl_cons] at h
+      rcases ih _ h with h | h
+      · rcases insertNat_mem h with h | h
+        · exact Or.inr (by rw [h]; exact List.mem_cons_self)
+        · exact Or.inl h
+      · exact Or.inr (List.mem_cons_of_mem _ h)
+  rcases this l [] h with h | h
+  · cases h
+  · exact h
+
+/-- one kernel iteration: a returned pair is a proper factorisation -/
+theorem kernelStep_proper {n : Nat} {slots : List Int} {rels : List Relation} {eq : List Nat}
+    {a b p q : Nat} (h : kernelStep n slots rels eq = .ok (a, b, some (p, q))) :
+    p * q = n ∧ 1 < p ∧ 1 < q := by
+  unfold kernelStep at h
+  simp only [bind_eq_ok] at h
+  obtain ⟨acc, _, fs, _, ab, hab, h⟩ := h
+  split at h
+  · simp [throw_ne_ok] at h
+  · simp only [bind_eq_ok, pure_eq_ok, Prod.mk.injEq] at h
+    obtain ⟨d, hd, rfl, rfl, rfl⟩ := h
+    by_cases hn : 0 < n
+    · obtain ⟨_, _, ha, hb⟩ := combineAB_spec (a := ab.1) (b := ab.2) hab hn
+      obtain ⟨res, h1, h2⟩ := tryFactor_proper' ha hb
+      rw [h1] at hd
+      cases hd
+      exact h2 p q rfl
+    · exfalso
+      unfold combineAB at hab
+      simp only [bind_eq_ok] at hab
+      obtain ⟨_, _, _, _, cm, hcm, _⟩ := hab
+      have := (fromInt_ok hcm).2
+      omega
+
+def ProperDiv (n d : Nat) : Prop := 1 < d ∧ d < n ∧ d ∣ n
+
+theorem proper_of_split {n p q : Nat} (h : p * q = n) (hp : 1 < p) (hq : 1 < q) :
+    ProperDiv n p ∧ ProperDiv n q := by
+  refine ⟨⟨hp, ?_, ⟨q, h.symm⟩⟩, ⟨hq, ?_, ⟨p, by rw [← h, Nat.mul_comm]⟩⟩⟩
+  · rw [← h]; exact (Nat.lt_mul_iff_one_lt_right (by omega)).mpr hq
+  · rw [← h]; exact (Nat.lt_mul_iff_one_lt_left (by omega)).mpr hp
+
+theorem kernelLoop_mem {n : Nat} {slots : List Int} {rels : List Relation} {isPrime : Nat → Bool} :
+    ∀ (kernel : List (List Nat)) (divs out : List Nat),
+      kernelLoop n slots rels isPrime kernel divs = .ok out →
+      ∀ d ∈ out, d ∈ divs ∨ ProperDiv n d := by
+  intro kernel
+  induction kernel with
+  | nil =>
+    intro divs out h d hd
+    simp only [kernelLoop, pure_eq_ok] at h
+    rw [← h] at hd; exact Or.inl hd
+  | cons eq t ih =>
+    intro divs out h d hd
+    simp only [kernelLoop, bind_eq_ok] at h
+    obtain ⟨r, hr, h⟩ := h
+    split at h
+    · exact ih divs out h d hd
+    · rename_i p q hpq
+      have hstep : kernelStep n slots rels eq = .ok (r.1, r.2.1, some (p, q)) := by
+        rw [hr, ← hpq]
+      obtain ⟨hm, hp, hq⟩ := kernelStep_proper hstep
+      obtain ⟨pp, pq⟩ := proper_of_split hm hp hq
+      have hnew : ∀ d ∈ divs ++ [p, q], d ∈ divs ∨ ProperDiv n d := by
+        intro d hd
+        simp only [List.mem_append, List.mem_cons, List.not_mem_nil, or_false] at hd
+        rcases hd with hd | hd | hd
+        · exact Or.inl hd
+        · rw [hd]; exact Or.inr pp
+        · rw [hd]; exact Or.inr pq
+      split at h
+      · simp only [pure_eq_ok] at h
+        rw [← h] at hd
+        exact hnew d hd
+      · rcases ih _ out h d hd with h1 | h1
+        · exact hnew d h1
+        · exact Or.inr h1
+
+/-- `final_step` (everything around the kernel solver): whatever relations and whatever kernel
+vectors it is given, every element of the returned list is a proper divisor of `n`. -/
+theorem finalStep_proper {n : Nat} {fb : List Nat} {rels : List Relation}
+    {kernel : List (List Nat)} {isPrime : Nat → Bool} {slots : List Int} {cnt : Nat}
+    {divs : List Nat} (h : finalStep n fb rels kernel isPrime = .ok (slots, cnt, divs)) :
+    ∀ d ∈ divs, ProperDiv n d := by
+  unfold finalStep at h
+  simp only [bind_eq_ok] at h
+  obtain ⟨_, _, occs0, _, filt, _, h⟩ := h
+  split at h
+  · simp [throw_ne_ok] at h
+  · simp only [bind_eq_ok, pure_eq_ok, Prod.mk.injEq] at h
+    obtain ⟨out, hout, _, _, rfl⟩ := h
+    intro d hd
+    rcases kernelLoop_mem _ _ _ hout d (sortDedup_mem hd) with h1 | h1
+    · cases h1
+    · exact h1
+
+end Ymq.Relations
